@@ -128,7 +128,83 @@ def _asym(w: np.ndarray) -> bool:
     return True
 
 
+def _reparam(conn, case, step, wm, bm, lateral, info, stats):
+    """Parameter changes BETWEEN forward calls, through the public setters (`conn.weight = T`,
+    `conn.bias = T`) and through the updater (`conn.updater.weight = (pos, neg); conn.update()`).
+    Returns the CURRENT (wm, bm) the documented map must use from now on: the assigned value for a
+    setter (a lateral connection must ignore its diagonal), the value read back after an update."""
+    f64, real, k = case["f64"], case["data"] == "real", step["k"]
+    for j, op in enumerate(step.get("pre", [])):
+        name = op[0]
+        if name in ("b", "ub") and bm is None:
+            continue
+        if name in ("uw", "ub") and not case.get("updater"):
+            continue
+        isw = name in ("w", "uw")
+        shape = wm.shape if isw else bm.shape
+        size = int(np.prod(shape))
+
+        def draw(spec, off):
+            if real:
+                return M.realvals(case["seed"] * 16 + 100 + 10 * k + 2 * j + off, size).reshape(shape)
+            return M.vals(spec, size).reshape(shape)
+
+        tgt = "weight" if isw else "bias"
+        what = f"before step {k}: {name}"
+        if name in ("w", "b"):
+            v = draw(op[1], 0)
+            with impl(what):
+                setattr(conn, tgt, _t(v))
+                r = getattr(conn, tgt)
+            stored = M.lateral_assign(v) if (lateral and isw) else v
+            _same(r, stored, "assign:" + tgt, f"{tgt} read back ({what})", exact=True, f64=f64, info=info)
+            if isw:
+                wm = v
+                stats["diag"] = stats["diag"] or (lateral and bool(np.any(np.diag(v) != 0)))
+            else:
+                bm = v
+            stats["set"] += 1
+        else:
+            pos, neg = np.abs(draw(op[1], 0)), np.abs(draw(op[2], 1)) * 0.5
+            mode = op[3] % 3
+            old = (M.lateral_assign(wm) if lateral else wm) if isw else bm
+            with impl(what):
+                if mode == 0:
+                    setattr(conn.updater, tgt, (_t(pos), _t(neg)))
+                    new = old + pos - neg
+                elif mode == 1:
+                    setattr(conn.updater, tgt, _t(pos))
+                    new = old + pos
+                else:
+                    setattr(conn.updater, tgt, (None, _t(neg)))
+                    new = old - neg
+                conn.update()
+                r = getattr(conn, tgt)
+            if lateral and isw:
+                stats["diag"] = stats["diag"] or bool(np.any(np.diag(new) != 0))
+                new = M.lateral_assign(new)
+            _same(r, new, "update:" + tgt, f"{tgt} read back ({what})", exact=not real, f64=f64,
+                  scale=np.abs(old) + pos + neg, info=info)
+            if isw:
+                wm = _np(r)
+            else:
+                bm = _np(r)
+            stats["upd"] += 1
+    return wm, bm
+
+
 # ---------------------------------------------------------------------------- linear leg
+
+
+def _pcls(case, pstats):
+    out = [f"steps={len(case['steps'])}"]
+    if pstats["set"]:
+        out.append("reassigned-between-steps")
+    if pstats["upd"]:
+        out.append("updated-between-steps")
+    if pstats["set"] or pstats["upd"]:
+        out.append("params-changed-between-steps")
+    return out
 
 
 def _build_linear(case):
@@ -158,6 +234,8 @@ def _build_linear(case):
             conn.weight = _t(wm)
             if case["bias"]:
                 conn.bias = _t(bm)
+        if case.get("updater"):
+            conn.updater = conn.defaultupdater()
         wr = conn.weight
         br = conn.bias
     if case["wmode"] == "default":  # inferno's own random initial values: the readback is the weight
@@ -193,7 +271,10 @@ def _run_linear(case):
     ref = {"dense": M.dense, "direct": M.direct, "lateral": M.lateral}[kind]
     nonconst = False
     out_np = cur_np = None
+    pstats = {"set": 0, "upd": 0, "diag": kind == "lateral" and bool(np.any(np.diag(wm) != 0))}
     for step in case["steps"]:
+        wm, bm = _reparam(conn, case, step, wm, bm, kind == "lateral", info, pstats)
+        wstored = M.lateral_assign(wm) if kind == "lateral" else wm
         spk, inj = _inputs(case, step, (B,) + ish)
         with impl(f"forward step {step['k']}"):
             out = conn(spk, *inj)
@@ -213,10 +294,11 @@ def _run_linear(case):
            "f64" if f64 else "f32", "bias" if case["bias"] else "nobias", f"wmode={case['wmode']}"]
     if kind == "dense" and len(osh) > 1:
         cls.append("rank_out>1")
+    cls += _pcls(case, pstats)
     wtest = wm if kind != "lateral" else wstored
     nt = O >= 2 and _asym(wtest) and nonconst
     if kind == "lateral":
-        nt = nt and bool(np.any(np.diag(wm) != 0))
+        nt = nt and pstats["diag"]
     if not nt:
         cls.append("trivial:" + ("O<2" if O < 2 else "weight-symmetric" if not _asym(wtest) else
                                  "current-constant" if not nonconst else "lateral-zero-diag-assigned"))
@@ -322,6 +404,8 @@ def _run_conv(case):
             conn.weight = _t(wm)
             if case["bias"]:
                 conn.bias = _t(bm)
+        if case.get("updater"):
+            conn.updater = conn.defaultupdater()
         wr, br = conn.weight, conn.bias
     if case["wmode"] == "default":
         wm = _np(wr)
@@ -339,7 +423,9 @@ def _run_conv(case):
 
     nonconst = False
     want = cur_np = None
+    pstats = {"set": 0, "upd": 0, "diag": False}
     for step in case["steps"]:
+        wm, bm = _reparam(conn, case, step, wm, bm, False, info, pstats)
         spk, inj = _inputs(case, step, (B, C, H, W))
         with impl(f"forward step {step['k']}"):
             out = conn(spk, *inj)
@@ -387,6 +473,7 @@ def _run_conv(case):
         cls.append("L>1")
     if ker[0] * ker[1] > 1:
         cls.append("kernel>1x1")
+    cls += _pcls(case, pstats)
     nt = F * g.OH * g.OW >= 2 and _asym(wm) and nonconst
     if not nt:
         cls.append("trivial:" + ("out<2" if F * g.OH * g.OW < 2 else "weight-symmetric" if not _asym(wm)
@@ -681,7 +768,13 @@ def _common(draw, tier):
     wmode = draw(st.sampled_from(["set", "set", "init", "init", "default"]))
     if wmode == "default":
         data = "real"
-    nsteps = draw(st.sampled_from([1, 1, 2]))
+    nsteps = draw(st.sampled_from([1, 2, 3, 3, 4, 5]))
+    preop = st.one_of(
+        st.tuples(st.just("w"), _rich()), st.tuples(st.just("w"), _rich()),
+        st.tuples(st.just("b"), _spec()),
+        st.tuples(st.just("uw"), _rich(), _spec(), st.integers(0, 2)),
+        st.tuples(st.just("ub"), _spec(), _spec(), st.integers(0, 2)),
+    ).map(list)
     return {
         "batch": draw(st.sampled_from([1, 1, 2, 3])),
         "bias": draw(st.booleans()),
@@ -696,7 +789,10 @@ def _common(draw, tier):
         "seed": draw(st.integers(0, 2**20)),
         "w": draw(_rich()),
         "b": draw(_spec()),
-        "steps": [{"k": k, "spk": draw(_rich()), "inj": draw(_rich())} for k in range(nsteps)],
+        "updater": draw(st.booleans()),
+        "steps": [{"k": k, "spk": draw(_rich()), "inj": draw(_rich()),
+                   "pre": [] if k == 0 else draw(st.lists(preop, min_size=0, max_size=2))}
+                  for k in range(nsteps)],
     }
 
 
@@ -788,8 +884,12 @@ def _grid_cases(tier):
                 "data": "dyadic", "wmode": "set", "delaymode": "none" if idx % 5 else "cap",
                 "spkdtype": "bool", "ninj": 1, "seed": idx,
                 "w": {"pool": [1, -2, 3, 5, -7], "seed": 1000 + idx}, "b": {"pool": [2, -3], "seed": 0},
+                "updater": idx % 8 == 0,
                 "steps": [{"k": 0, "spk": {"pool": [1, 0, 0, 1, 1], "seed": 77 + idx},
-                           "inj": {"pool": [0], "seed": 500 + idx}}],
+                           "inj": {"pool": [0], "seed": 500 + idx}}] + ([] if idx % 4 else [
+                    {"k": 1, "spk": {"pool": [0, 1, 1], "seed": 78 + idx}, "inj": {"pool": [0], "seed": 501 + idx},
+                     "pre": [["uw", {"pool": [1, 2], "seed": 3000 + idx}, {"pool": [3], "seed": 3001 + idx}, 0]
+                             if idx % 8 == 0 else ["w", {"pool": [2, -1, 4], "seed": 2000 + idx}]]}]),
                 "C": 1 + (idx // 2) % 2, "F": 1 + (idx // 4) % 2,
                 "H": a[0], "W": b[0], "kernel": [a[1], b[1]], "stride": [a[2], b[2]],
                 "padding": [a[3], b[3]], "dilation": [a[4], b[4]], "scalar_args": idx % 2 == 0,
